@@ -90,13 +90,6 @@ fn case_size(c: &AnyCase) -> usize {
     serde_json::to_string(c).map(|s| s.len()).unwrap_or(0)
 }
 
-/// Does re-executing `case` raise a violation with this key?
-pub fn reproduces(case: &AnyCase, key: &str) -> bool {
-    let mut mon = Mon::new(false);
-    case.check(&mut mon);
-    mon.violations.iter().any(|v| key_of(v) == key)
-}
-
 pub fn minimise(found: &Found, run_index: u64, budget: usize) -> Minimised {
     let key = key_of(&found.violation);
     let original_size = case_size(&found.case);
@@ -287,7 +280,6 @@ struct WorkerSlot {
     retired: bool,
     hung: bool,
     resume_from: u64,
-    offset: u64,
 }
 
 #[allow(clippy::too_many_arguments)]
@@ -351,7 +343,7 @@ pub fn run_batch(exe: &Path, prop: &str, tier: Tier, seed: u64, count: u64, work
     let mut slots: Vec<WorkerSlot> = Vec::new();
     for w in 0..workers {
         let child = spawn_worker(exe, prop, tier, seed, w, count, workers, &[], w as usize, tx.clone()).map_err(|e| format!("cannot spawn worker: {}", e))?;
-        slots.push(WorkerSlot { skip: vec![], child, last_index: None, last_progress: Instant::now(), got_result: false, retired: false, hung: false, resume_from: w, offset: w });
+        slots.push(WorkerSlot { skip: vec![], child, last_index: None, last_progress: Instant::now(), got_result: false, retired: false, hung: false, resume_from: w });
     }
     let mut agg = Agg::default();
     let mut crashes = Vec::new();
